@@ -199,9 +199,11 @@ def run(repo: Repo, ctx) -> None:
            'rejected, or an implicit one is not made explicit', f.loc,
            sample='implicit -> make_explicit(); else raise')
     f = repo.find_method(tx.qualname, 'make_explicit')
-    txt = norm(f.node)
-    ok = 'self._implicit = False' in txt and 'raise errors.TransactionError' \
-        in txt
+    from .. import shapes as SH
+    from ..model import inline_locals
+    flips = [a for a in SH.assigns_attr(f.node, '_implicit', 'self')
+             if norm(a.value) == 'False']
+    ok = bool(flips) and SH.raises([f.node], 'TransactionError')
     ctx.ob('C09.R2', 'Transaction.make_explicit', ok,
            'make_explicit does not flip the flag / reject double start',
            f.loc, sample='_implicit=False or raise')
@@ -281,19 +283,34 @@ def run(repo: Repo, ctx) -> None:
                    sample=rets)
     # savepoint tables receive whole TransactionState values
     ds = repo.find_method(tx.qualname, '_declare_savepoint')
-    txt = norm(ds.node)
-    ok = 'sp_state = self._current._replace(id=sp_id, name=name)' in txt and \
-        'self._savepoints[sp_id] = sp_state' in txt and \
-        'self._constate._savepoints_log[sp_id] = sp_state' in txt and \
-        'sp_id = self._constate._new_txid()' in txt
+    # both tables receive one value: _current._replace(id=<fresh txid>,
+    # name=<the savepoint name parameter>)
+    spname = SH.param(ds.node, 0)
+    st1 = SH.subscript_stores(ds.node, 'self._savepoints')
+    st2 = SH.subscript_stores(ds.node, '_savepoints_log')
+    if not st1 and not st2:
+        raise AnalysisError('C09.R3: _declare_savepoint no longer records '
+                            'into the savepoint tables')
+    vals = {inline_locals(ds.node, a.value) for a in st1 + st2}
+    keys = {inline_locals(ds.node, a.targets[0].slice) for a in st1 + st2}
+    ok = len(vals) == 1 and len(keys) == 1 and bool(st1) and bool(st2)
+    if ok:
+        v = next(iter(vals))
+        k = next(iter(keys))
+        ok = v.startswith('self._current._replace(') and \
+            f'id={k}' in v and f'name={spname}' in v and \
+            k.endswith('_new_txid()')
     ctx.ob('C09.R3', 'Transaction._declare_savepoint:snapshot', ok,
            'a savepoint is not a whole copy of _current under a fresh id, '
            'recorded in both tables', ds.loc,
            sample='sp_state=_current._replace(id, name) -> both tables')
     rets = [norm(r.value) for r in walk_no_nested(ds.node)
             if isinstance(r, ast.Return)]
+    keyvars = {norm(a.targets[0].slice) for a in st1 + st2}
     ctx.ob('C09.R3', 'Transaction._declare_savepoint:returns-id',
-           rets == ['sp_id'], f'returns {rets}', ds.loc, sample=rets)
+           len(rets) == 1 and set(rets) <= keyvars,
+           f'returns {rets}, tables are keyed by {sorted(keyvars)}', ds.loc,
+           sample=rets)
 
     # ---- R4 four-way table --------------------------------------------------
     ctx.floor('C09.R4', 12)
